@@ -69,8 +69,8 @@ pub(crate) mod verif_scrypt {
         unsafe {
             assert!(SX_N < 6, "[C18] BlockMix makes exactly 2r Salsa20/8 calls");
             let k = SX_N;
-            match k { 0 => { SX_IN[0] = x; SX_OUT[0] = y; } 1 => { SX_IN[1] = x; SX_OUT[1] = y; } 2 => { SX_IN[2] = x; SX_OUT[2] = y; }
-                      3 => { SX_IN[3] = x; SX_OUT[3] = y; } 4 => { SX_IN[4] = x; SX_OUT[4] = y; } _ => { SX_IN[5] = x; SX_OUT[5] = y; } }
+            SX_IN[k] = x;
+            SX_OUT[k] = y;
             SX_N += 1;
         }
         vrep!(16, j, { tmp[j] = y[j]; out[j] = y[j]; });
@@ -84,29 +84,31 @@ pub(crate) mod verif_scrypt {
         block_mix(&mut tmp, &b[..32 * r], &mut out[..32 * r], r);
         unsafe {
             assert!(SX_N == 2 * r, "[C18] BlockMix makes exactly 2r Salsa20/8 calls");
-            vrep!(6, k, {
-                if k < 2 * r {
-                    vrep!(16, j, {
-                        let xprev = if k == 0 { b[(2 * r - 1) * 16 + j] } else { SX_OUT[k - 1][j] };
-                        assert!(SX_IN[k][j] == xprev ^ b[k * 16 + j], "[C18] BlockMix step k hashes X xor B[k], starting from X = B[2r-1]");
-                        let pos = if k % 2 == 0 { k / 2 } else { r + k / 2 };
-                        assert!(out[pos * 16 + j] == SX_OUT[k][j], "[C18] BlockMix output order is Y0,Y2,...,Y1,Y3,...");
-                    });
+            let mut k = 0;
+            while k < 2 * r {
+                let mut j = 0;
+                while j < 16 {
+                    let xprev = if k == 0 { b[(2 * r - 1) * 16 + j] } else { SX_OUT[k - 1][j] };
+                    assert!(SX_IN[k][j] == xprev ^ b[k * 16 + j], "[C18] BlockMix step k hashes X xor B[k], starting from X = B[2r-1]");
+                    let pos = if k % 2 == 0 { k / 2 } else { r + k / 2 };
+                    assert!(out[pos * 16 + j] == SX_OUT[k][j], "[C18] BlockMix output order is Y0,Y2,...,Y1,Y3,...");
+                    j += 1;
                 }
-            });
+                k += 1;
+            }
         }
     }
     #[kani::proof]
     #[kani::stub(salsa_xor, salsa_model)]
-    #[kani::unwind(5)]
+    #[kani::unwind(18)]
     pub fn c18_blockmix_r1() { block_mix_lockstep(1); }
     #[kani::proof]
     #[kani::stub(salsa_xor, salsa_model)]
-    #[kani::unwind(5)]
+    #[kani::unwind(18)]
     pub fn c18_blockmix_r2() { block_mix_lockstep(2); }
     #[kani::proof]
     #[kani::stub(salsa_xor, salsa_model)]
-    #[kani::unwind(5)]
+    #[kani::unwind(18)]
     pub fn c18_blockmix_r3() { block_mix_lockstep(3); }
 
     // ------------------------------------------------------------------ level 3: scryptROMix over an arbitrary BlockMix (r = 1)
@@ -116,17 +118,17 @@ pub(crate) mod verif_scrypt {
     pub static mut BM_R_OK: bool = true;
     pub fn bm_model(tmp: &mut [u32], inn: &[u32], out: &mut [u32], r: usize) {
         let mut x = [0u32; 32];
-        rep32!(j, { x[j] = inn[j]; });
+        x.copy_from_slice(&inn[..32]);
         let y: [u32; 32] = kani::any();
         unsafe {
             if r != 1 { BM_R_OK = false; }
             assert!(BM_N < 8, "[C18] ROMix makes exactly 2N BlockMix calls");
             let k = BM_N;
-            match k { 0 => { BM_IN[0] = x; BM_OUT[0] = y; } 1 => { BM_IN[1] = x; BM_OUT[1] = y; } 2 => { BM_IN[2] = x; BM_OUT[2] = y; } 3 => { BM_IN[3] = x; BM_OUT[3] = y; }
-                      4 => { BM_IN[4] = x; BM_OUT[4] = y; } 5 => { BM_IN[5] = x; BM_OUT[5] = y; } 6 => { BM_IN[6] = x; BM_OUT[6] = y; } _ => { BM_IN[7] = x; BM_OUT[7] = y; } }
+            BM_IN[k] = x;
+            BM_OUT[k] = y;
             BM_N += 1;
         }
-        rep32!(j, { out[j] = y[j]; });
+        out[..32].copy_from_slice(&y);
     }
 
     /// RFC 7914 section 5: X = B; for i in 0..N: V[i] = X; X = BlockMix(X);
@@ -143,31 +145,37 @@ pub(crate) mod verif_scrypt {
             assert!(BM_R_OK, "[C18] BlockMix is called with the caller's r");
             assert!(BM_N == 2 * n, "[C18] ROMix makes exactly 2N BlockMix calls");
             // phase 1: V[i] = X; X = BlockMix(X)
-            vrep!(4, i, {
-                if i < n {
-                    rep32!(j, {
-                        let want = if i == 0 { u32::from_le_bytes([b0[4 * j], b0[4 * j + 1], b0[4 * j + 2], b0[4 * j + 3]]) } else { BM_OUT[i - 1][j] };
-                        assert!(BM_IN[i][j] == want, "[C18] ROMix phase 1: X starts as B (little-endian words) and X = BlockMix(X)");
-                        assert!(v[i * 32 + j] == want, "[C18] ROMix phase 1: V[i] = X before mixing");
-                    });
+            let mut i = 0;
+            while i < n {
+                let mut j = 0;
+                while j < 32 {
+                    let want = if i == 0 { u32::from_le_bytes([b0[4 * j], b0[4 * j + 1], b0[4 * j + 2], b0[4 * j + 3]]) } else { BM_OUT[i - 1][j] };
+                    assert!(BM_IN[i][j] == want, "[C18] ROMix phase 1: X starts as B (little-endian words) and X = BlockMix(X)");
+                    assert!(v[i * 32 + j] == want, "[C18] ROMix phase 1: V[i] = X before mixing");
+                    j += 1;
                 }
-            });
+                i += 1;
+            }
             // phase 2: j = Integerify(X) mod N; X = BlockMix(X xor V[j])
-            vrep!(4, i, {
-                if i < n {
-                    let k = n + i;
-                    let prev = &BM_OUT[k - 1];
-                    let jj = ((prev[16] as u64 | ((prev[17] as u64) << 32)) & (n as u64 - 1)) as usize;
-                    rep32!(j, {
-                        assert!(BM_IN[k][j] == prev[j] ^ v[jj * 32 + j], "[C18] ROMix phase 2: X = BlockMix(X xor V[Integerify(X) mod N]), Integerify = LE64 of the last block's first 8 bytes");
-                    });
+            let mut i = 0;
+            while i < n {
+                let k = n + i;
+                let prev = BM_OUT[k - 1];
+                let jj = ((prev[16] as u64 | ((prev[17] as u64) << 32)) & (n as u64 - 1)) as usize;
+                let mut j = 0;
+                while j < 32 {
+                    assert!(BM_IN[k][j] == prev[j] ^ v[jj * 32 + j], "[C18] ROMix phase 2: X = BlockMix(X xor V[Integerify(X) mod N]), Integerify = LE64 of the last block's first 8 bytes");
+                    j += 1;
                 }
-            });
-            let last = &BM_OUT[2 * n - 1];
-            rep32!(j, {
+                i += 1;
+            }
+            let last = BM_OUT[2 * n - 1];
+            let mut j = 0;
+            while j < 32 {
                 let w = last[j].to_le_bytes();
                 assert!(b[4 * j] == w[0] && b[4 * j + 1] == w[1] && b[4 * j + 2] == w[2] && b[4 * j + 3] == w[3], "[C18] ROMix result is X written back as little-endian words");
-            });
+                j += 1;
+            }
         }
     }
     #[kani::proof]
